@@ -354,6 +354,24 @@ func checkUpsert(img []byte, q req) (string, []byte) {
 	if existed && w2.size != w.size {
 		return "FAIL update-changed-length" + tg, buf
 	}
+	if existed { // an update in place: only the value bytes of the tokens the request speaks of may differ
+		want := append([]byte{}, img...)
+		for _, g := range w.groups {
+			for _, t := range g.types {
+				if !q.matches(t.prio, t.board, t.kind) {
+					continue
+				}
+				for i, k := range t.toks {
+					if k.id == q.k {
+						le.PutUint32(want[t.off+16+8*i+4:], q.v)
+					}
+				}
+			}
+		}
+		if !bytes.Equal(buf, want) {
+			return "FAIL update-changed-other-bytes" + tg, buf
+		}
+	}
 	if !existed && w2.size != w.size+need {
 		return "FAIL size-of-apcb-after-insert" + tg, buf
 	}
@@ -446,6 +464,45 @@ func pSeq(a []string) string {
 	}
 	if !did {
 		return "skip"
+	}
+	return "ok"
+}
+
+// the listing of a blob the walker accepts is what the walker finds: same tokens, same order,
+// masks and kind of the enclosing type, value cut to the width of the kind; it is an error exactly
+// when a type of unknown kind holds a pair
+func pList(a []string) string {
+	img := UnH(a[0])
+	w, _ := walk(img)
+	if w == nil {
+		return "skip"
+	}
+	want := w.tokens()
+	unknown := false
+	for _, t := range want {
+		if t.kind != 0 && t.kind != 1 && t.kind != 2 && t.kind != 4 {
+			unknown = true
+		}
+	}
+	toks, err := apcb.ParseAPCBBinaryTokens(img)
+	if unknown {
+		if err == nil {
+			return "FAIL listing-accepts-unknown-kind"
+		}
+		return "ok"
+	}
+	if err != nil {
+		return "FAIL listing-error-on-consistent-blob: " + err.Error()
+	}
+	if len(toks) != len(want) {
+		return fmt.Sprintf("FAIL listing-count %d want %d", len(toks), len(want))
+	}
+	for i, t := range toks {
+		a := want[i]
+		if uint32(t.ID) != a.id || uint8(t.PriorityMask) != a.prio || t.BoardMask != a.board ||
+			kindOf(t.Value) != uint64(a.kind) || t.NumValue() != cut(a.val, a.kind) {
+			return fmt.Sprintf("FAIL listing-token-%d-differs-from-walker", i)
+		}
 	}
 	return "ok"
 }
@@ -752,6 +809,65 @@ func bigBlob(r *Rng, which int) (*gblob, req) {
 	return s, q
 }
 
+// token groups with more than 64 KiB of type data: types that start at an in-group offset of
+// 65536 and more (behind two or three large types), requests aimed at those late types
+func farBlob(r *Rng, which int) (*gblob, []req) {
+	s := &gblob{}
+	copy(s.hdr[:], r.Bytes(128))
+	mk := func(kind uint16, prio uint8, board uint16, n int, first, step uint32) gtype {
+		t := gtype{kind: kind, prio: prio, board: board}
+		copy(t.raw[:], r.Bytes(16))
+		for i := 0; i < n; i++ {
+			t.toks = append(t.toks, wtok{first + step*uint32(i), cut(uint32(r.U64()), kind)})
+		}
+		return t
+	}
+	g := ggroup{token: true}
+	copy(g.raw[:], r.Bytes(16))
+	var qs []req
+	nbig := 4095 - r.Intn(3) // 4095 pairs: 32776 bytes, two of them end at in-group offset 65552
+	switch which {
+	case 0, 1, 2: // large types the request does not match, the matching type behind them
+		g.types = []gtype{
+			mk(1, 1, 1, nbig, 0x10000000, 3), mk(2, 2, 2, nbig, 0x20000000, 3),
+			mk(4, 0xf0, 0xff00, 5, 100, 10), mk(0, 0x0c, 0x00f0, 3, 7, 7),
+		}
+		late := &g.types[2]
+		switch which {
+		case 0: // existing token of the late type
+			qs = []req{{k: late.toks[r.Intn(5)].id, pm: 0x10, bm: 0x0100, kind: 4, v: uint32(r.U64())}}
+		case 1: // new token inside the late type, then the same one again
+			k := late.toks[r.Intn(5)].id + 1 + uint32(r.Intn(8))
+			qs = []req{{k: k, pm: 0xff, bm: 0xffff, kind: 4, v: uint32(r.U64())}, {k: k, pm: 0x80, bm: 0x8000, kind: 4, v: 1}}
+		default: // bool token of the last type; then a request no type matches: new type behind 64 KiB
+			qs = []req{{k: 14, pm: 0x04, bm: 0x0010, kind: 0, v: 1}, {k: 5, pm: 0x01, bm: 0x0800, kind: 2, v: 0x1234}}
+		}
+	case 3: // the token sits in all three matching types, two of them large
+		g.types = []gtype{
+			mk(4, 0xff, 0xffff, nbig, 10, 2), mk(4, 0x0f, 0x00ff, nbig, 10, 2), mk(4, 0xf0, 0xff00, 6, 10, 2),
+		}
+		qs = []req{{k: 10 + 2*uint32(r.Intn(6)), pm: 0x18, bm: 0x0180, kind: 4, v: uint32(r.U64())},
+			{k: 15, pm: 0x18, bm: 0x0180, kind: 4, v: 9}}
+	default: // three types close to the SizeOfType limit, small ones at in-group offset 196 KiB
+		g.types = []gtype{
+			mk(1, 0xff, 0xffff, 8189, 1, 1), mk(2, 0xff, 0xffff, 8188-r.Intn(3), 1, 1), mk(0, 0xff, 0xffff, 8187, 1, 1),
+			mk(4, 0xff, 0xffff, 4, 50, 50), mk(4, 1, 1, 2, 60, 60),
+		}
+		qs = []req{{k: 100, pm: 0xfe, bm: 0xfffe, kind: 4, v: uint32(r.U64())}, {k: 75, pm: 0xfe, bm: 0xfffe, kind: 4, v: 3},
+			{k: 60, pm: 1, bm: 1, kind: 4, v: 4}}
+	}
+	f := ggroup{gid: 0x1701, body: r.Bytes(24)}
+	copy(f.raw[:], r.Bytes(16))
+	g2 := ggroup{token: true, types: []gtype{mk(2, 0xff, 0xffff, 2, 5, 5)}}
+	copy(g2.raw[:], r.Bytes(16))
+	s.groups = []ggroup{f, g, g2}
+	if r.Bool() {
+		s.groups = []ggroup{g, f}
+	}
+	s.slack = r.Bytes(80)
+	return s, qs
+}
+
 func gen(r *Rng, tier string, emit Emit) {
 	n := 260
 	if tier == "thorough" {
@@ -766,6 +882,7 @@ func gen(r *Rng, tier string, emit Emit) {
 
 		emit("C", "parse", H(img))
 		emit("C", "spec_parse", H(img))
+		emit("P", "p_list", H(img))
 		emit("C", "upsert", ua(q, img)...)
 		emit("C", "spec_upsert", ua(q, img)...)
 		emit("P", "p_upsert", ua(q, img)...)
@@ -842,6 +959,44 @@ func gen(r *Rng, tier string, emit Emit) {
 		sa := append([]string{H(img), N(2)}, append(q.args(), q2.args()...)...)
 		emit("P", "p_seq", sa...)
 	}
+	// more than 64 KiB of type data in one group
+	nf := 5
+	if tier == "thorough" {
+		nf = 40
+	}
+	for it := 0; it < nf; it++ {
+		rr := r.Fork(uint64(2000000 + it))
+		which := it % 5
+		s, qs := farBlob(rr, which)
+		img := s.enc()
+		emit("P", "p_list", H(img))
+		// through the model where it does not have to walk a large matching type pair by pair
+		viaModel := which <= 2 || tier == "thorough"
+		if viaModel {
+			emit("C", "parse", H(img))
+			emit("C", "spec_parse", H(img))
+		}
+		sa := []string{H(img), N(uint64(len(qs)))}
+		cur := img
+		for _, q := range qs {
+			ua := append(q.args(), H(cur))
+			emit("P", "p_upsert", ua...)
+			if viaModel {
+				emit("C", "upsert", ua...)
+				emit("C", "spec_upsert", ua...)
+			}
+			sa = append(sa, q.args()...)
+			_, nxt, _ := func() (string, []byte, error) {
+				defer func() { _ = recover() }()
+				return obsUpsert(q, cur)
+			}()
+			if nxt != nil {
+				cur = nxt
+			}
+		}
+		emit("P", "p_seq", sa...)
+		emit("P", "p_list", H(cur))
+	}
 }
 
 func main() {
@@ -851,6 +1006,7 @@ func main() {
 	Register("spec_upsert", opSpecUpsert)
 	Register("p_upsert", pUpsert)
 	Register("p_seq", pSeq)
+	Register("p_list", pList)
 	Register("p_no_panic", pNoPanic)
 	Main(gen)
 }
